@@ -18,6 +18,7 @@ type env struct {
 	results []Val
 	atBlock *ssa.BasicBlock // for resolving source locals (loop invariants)
 	atInstr ssa.Instruction
+	atEnd   bool // names resolve at the end of atBlock (return state) instead of its entry
 	depth   int
 }
 
@@ -300,7 +301,11 @@ func (g *gen) lookupLocal(name string, e *env) (Val, bool) {
 			}
 		}
 	}
-	for d := b.Idom(); d != nil; d = d.Idom() {
+	start := b.Idom()
+	if e.atEnd {
+		start = b
+	}
+	for d := start; d != nil; d = d.Idom() {
 		for i := len(d.Instrs) - 1; i >= 0; i-- {
 			switch in := d.Instrs[i].(type) {
 			case *ssa.DebugRef:
@@ -602,11 +607,11 @@ func (g *gen) elabQuant(x *Expr, e *env) (Val, error) {
 	for _, tr := range x.Triggers {
 		var ts []string
 		for _, t := range tr {
-			tv, err := g.elab1(t, cur)
+			tv, err := g.elabTrigger(t, cur)
 			if err != nil {
 				return Val{}, err
 			}
-			ts = append(ts, tv.T)
+			ts = append(ts, tv)
 		}
 		pats += " :pattern (" + strings.Join(ts, " ") + ")"
 	}
@@ -620,6 +625,62 @@ func (g *gen) elabQuant(x *Expr, e *env) (Val, error) {
 		inner = "(! " + inner + pats + ")"
 	}
 	return boolVal("(" + x.Op + " (" + strings.Join(binds, " ") + ") " + inner + ")"), nil
+}
+
+// elabTrigger elaborates a quantifier pattern. Map membership and map reads are guarded terms
+// (`and`/`ite`), which solvers reject inside patterns; their raw `select` cores are used instead.
+func (g *gen) elabTrigger(t *Expr, e *env) (string, error) {
+	mapCore := func(mx, kx *Expr, wantVal bool) (string, bool, error) {
+		m, err := g.elab1(mx, e)
+		if err != nil {
+			return "", false, err
+		}
+		if m.GoT == nil {
+			return "", false, nil
+		}
+		mt, ok := m.GoT.Underlying().(*types.Map)
+		if !ok {
+			return "", false, nil
+		}
+		k, err := g.elab1(kx, e)
+		if err != nil {
+			return "", false, err
+		}
+		ks := g.ctx.sortOf(mt.Key())
+		if ks == "Iface" && k.S != "Iface" && k.GoT != nil {
+			k = Val{T: g.box(k, k.GoT), S: "Iface"}
+		}
+		dom, val, _ := g.ctx.mapComps(ks, g.ctx.sortOf(mt.Elem()))
+		comp := dom
+		if wantVal {
+			comp = val
+		}
+		return "(select (select " + g.stGet(e.st, comp) + " " + m.T + ") " + k.T + ")", true, nil
+	}
+	if t.Op == "call" && t.S == "has" && len(t.Args) == 2 {
+		if s, ok, err := mapCore(t.Args[0], t.Args[1], false); err != nil || ok {
+			return s, err
+		}
+	}
+	if t.Op == "index" {
+		if s, ok, err := mapCore(t.Args[0], t.Args[1], true); err != nil {
+			return "", err
+		} else if ok {
+			return s, nil
+		}
+	}
+	if t.Op == "old" || t.Op == "pre" {
+		st := e.old
+		if t.Op == "pre" {
+			st = e.pre
+		}
+		return g.elabTrigger(t.Args[0], e.with(st))
+	}
+	tv, err := g.elab1(t, e)
+	if err != nil {
+		return "", err
+	}
+	return tv.T, nil
 }
 
 func (g *gen) elabCall(x *Expr, e *env) (Val, error) {
